@@ -299,6 +299,13 @@ func c11Moment(w *W, st ref.Stamp, class string) {
 			if again := strings.Join(filterParts(digest1(sone.GetLunar().GetEightChar()), []string{"GetLunar="}), ";"); again != f2 {
 				w.Violatef("route", fmt.Sprintf("Solar.GetLunar() again after SetSect(%d)@%s", sect, key), "after SetSect(%d) on the chart of solar.GetLunar() at %s, converting the same Solar again hands out a chart that differs from a fresh default one: %s", sect, key, diffDigests(f2, again))
 			}
+			// ... and asking the Lunar anything (every zero-argument accessor, the deprecated aliases included) leaves the chart
+			// in the convention the caller chose
+			digest1(lone)
+			if one.GetSect() != sect {
+				w.Violatef("chart-sect-switch", fmt.Sprintf("%s/step%d/sect-kept", key, i), "after SetSect(%d) on the chart of the Lunar at %s and a round of read-only accessors on the Lunar, the chart reports sect %d", sect, key, one.GetSect())
+				one.SetSect(sect)
+			}
 			if a != b {
 				w.Violatef("route", fmt.Sprintf("GetBaZi*|EightChar after SetSect(%d)@%s", sect, key), "after SetSect(%d) on the chart of the Lunar at %s its GetBaZi* aliases give %s, the chart %s", sect, key, a, b)
 			}
